@@ -533,9 +533,103 @@ pub fn codec_plain() -> Vec<u8> {
     v
 }
 
-/// (encoded bytes, uncompressed size) of the base stream of a codec case
+/// plain inputs of the flag-sweep codec bases (`nx16x<flags>p<k>`, `aacx<flags>p<k>`): the input
+/// classes on which the decoder MODELS of C08 (NV.Cram.Nx16Full / Nx16Stripe / AacRle) branch --
+/// empty, shorter than the state count (forces CAT), one symbol (PACK with 0 bits, RLE of one
+/// run), 17 symbols (PACK refused), 256 symbols, long runs (RLE meta-data), order-1 contexts
+pub const N_PLAINS: usize = 9;
+pub fn codec_plain_variant(k: usize) -> Vec<u8> {
+    match k {
+        0 => codec_plain(),
+        1 => Vec::new(),
+        2 => vec![b'A'],
+        3 => b"ACG".to_vec(),
+        4 => vec![b'N'; 40],
+        5 => (0..512u32).map(|i| (i % 256) as u8).collect(),
+        6 => {
+            let mut v = vec![b'A'; 100];
+            v.extend(vec![b'C'; 100]);
+            v.extend(b"GT");
+            v.extend(vec![0u8; 70]);
+            v
+        }
+        7 => (0..85u32).map(|i| b'a' + (i * 7 % 17) as u8).collect(),
+        _ => (0..97u32).map(|i| [0u8, 1, 1, 2, 0, 3, 255, 0][(i * i % 8) as usize]).collect(),
+    }
+}
+
+/// `nx16x<hh>p<k>` / `aacx<hh>p<k>` -> (flag byte, plain variant)
+pub fn parse_sweep_name(name: &str) -> Option<(bool, u8, usize)> {
+    let (nx, rest) = if let Some(r) = name.strip_prefix("nx16x") {
+        (true, r)
+    } else if let Some(r) = name.strip_prefix("aacx") {
+        (false, r)
+    } else {
+        return None;
+    };
+    let (h, k) = rest.split_once('p')?;
+    Some((nx, u8::from_str_radix(h, 16).ok()?, k.parse().ok()?))
+}
+
+/// fqzcomp / name tokenizer base variants (`fqzv<k>`, `tokv<k>`)
+fn fqz_variant(k: usize) -> (Vec<usize>, Vec<u8>) {
+    match k {
+        0 => (vec![1; 30], (0..30u32).map(|i| (i % 5) as u8).collect()),
+        1 => (vec![64], (0..64u32).map(|i| (i * 11 % 60) as u8).collect()),
+        2 => (vec![5, 0, 7, 0, 0, 3], (0..15u32).map(|i| (i % 3 + 30) as u8).collect()),
+        3 => (vec![20, 20, 20], vec![33u8; 60]),
+        4 => (vec![3, 4, 5, 6, 7, 8, 9], (0..42u32).map(|i| (i * i % 94) as u8).collect()),
+        _ => (vec![100, 1, 100], (0..201u32).map(|i| if i % 10 < 7 { 40 } else { (i % 41) as u8 }).collect()),
+    }
+}
+
+fn tok_variant(k: usize) -> Vec<u8> {
+    match k {
+        0 => b"a\0a\0a\0a\0".to_vec(),
+        1 => b"x0001\0x0002\0x0010\0x0100\0x1000\0".to_vec(),
+        2 => b"read.4294967295\0read.4294967296\0read.0\0read.00\0".to_vec(),
+        3 => b"\0\0q\0".to_vec(),
+        4 => b"@SRR1.1 HWI:1:2:3/1\0@SRR1.2 HWI:1:2:4/2\0@SRR1.3 HWI:1:3:4/1\0@SRR1.3 HWI:1:3:4/1\0".to_vec(),
+        5 => {
+            let mut v = Vec::new();
+            for i in 0..40u32 {
+                v.extend(format!("n{}:{}:{:03}", i / 7, i * 13 % 11, i).into_bytes());
+                v.push(0);
+            }
+            v
+        }
+        _ => b"r+1\0r-1\0r 1\0r\t1\0r:1:\0:r:1\0".to_vec(),
+    }
+}
+pub const N_FQZ_VARIANTS: usize = 6;
+pub const N_TOK_VARIANTS: usize = 7;
+
+/// (encoded bytes, uncompressed size) of the base stream of a codec case; an empty stream when
+/// the encoder refuses the (flags, input) combination
 pub fn codec_base(name: &str) -> (Vec<u8>, usize) {
     use cram::verif as v;
+    if let Some((nx, bits, k)) = parse_sweep_name(name) {
+        let plain = codec_plain_variant(k);
+        // an encoder panic on an odd (flags, input) pair is not a C15 matter (C08 owns the encoders)
+        let r = std::panic::catch_unwind(|| {
+            if nx {
+                v::rans_nx16_encode(cram::codecs::rans_nx16::Flags::from(bits), &plain)
+            } else {
+                v::aac_encode(cram::codecs::aac::Flags::from(bits), &plain)
+            }
+        });
+        return (r.ok().and_then(|r| r.ok()).unwrap_or_default(), plain.len());
+    }
+    if let Some(k) = name.strip_prefix("fqzv").and_then(|k| k.parse::<usize>().ok()) {
+        let (lens, q) = fqz_variant(k);
+        let r = std::panic::catch_unwind(|| v::fqzcomp_encode(&lens, &q));
+        return (r.ok().and_then(|r| r.ok()).unwrap_or_default(), q.len());
+    }
+    if let Some(k) = name.strip_prefix("tokv").and_then(|k| k.parse::<usize>().ok()) {
+        let names = tok_variant(k);
+        let r = std::panic::catch_unwind(|| v::name_tokenizer_encode(&names));
+        return (r.ok().and_then(|r| r.ok()).unwrap_or_default(), names.len());
+    }
     let plain = codec_plain();
     let n = plain.len();
     let nx = |bits: u8| -> Vec<u8> {
